@@ -107,6 +107,26 @@ CLAIMED = {
                 "C17:body-line-starting-with-1-not-tle is modelled faithfully and proved as C17_line1_refuted",
         "technique": "Coq proof by induction over the fetch loops + exhaustive Coq-evaluated correspondence",
     },
+    "C14": {
+        "text": "Coq theorems over the model of qrotate (all accepted axis/angle/shape variants, proved column-wise identical) and subpoint, regenerated "
+                "from geoloc.py on every run: equality with Rodrigues' rotation about axis/|axis| by minus the angle for every vector, non-zero axis "
+                "and angle; length and inner-product preservation; axis fixed; identity at 0 and 2pi; additivity; the subpoint lies on the (A, B) "
+                "ellipsoid for every latitude value. Translator self-check and implementation oracle against an independent Rodrigues formula",
+        "design_ref": "DESIGN.md 5/C14",
+        "note": "trusted: Coq kernel, stdlib real axioms, translator (self-checked each run in binary64 and by Coq-Interval). Shape/broadcast semantics, "
+                "the 1 m normal distance, geodetic_lat termination and binary64 rounding at 1e-9 are sampled",
+        "technique": "Coq proof (nsatz / field) over a source-regenerated real-number model + sampling oracle",
+    },
+    "C07": {
+        "text": "Coq theorems over the regenerated model of the compute_pixels core and ScanGeometry.vectors: the pixel lies exactly on WGS-84, on the "
+                "ray at the smaller of the only two roots and in front of the satellite; horizon inequality; an intersection exists iff discriminant >= 0; "
+                "unit view vectors; zero angles give nadir; roll and pitch add; yaw leaves the off-nadir angle unchanged; closed-form across/along-track "
+                "sense; exit of the NaN-tolerant vectorised loop (pre-fix loop refuted). Sub-point conversion range/round trip come from C04's theorems",
+        "design_ref": "DESIGN.md 5/C07",
+        "note": "the NaN <-> miss link, nadir 0.2 deg, the 1e-9 / 10 m tolerances, 2-D shapes and get_lonlatalt termination are validated by the oracle "
+                "(hit/miss decided in exact rationals). Orbital.get_position is taken as the state source. M_VecLoop.v is hand-written from geoloc.py:54-59,197-202",
+        "technique": "Coq proof over a source-regenerated model with recorded qrotate calls + hand-written loop-exit model + implementation oracle",
+    },
 }
 
 _PENDING = "model and theorems not built yet in this round; not claimed on sampling alone (see DESIGN.md 10)"
